@@ -8,6 +8,7 @@ import (
 	"go/types"
 	"sort"
 	"strings"
+	"sync"
 
 	"golang.org/x/tools/go/ssa"
 )
@@ -219,7 +220,9 @@ func (c *Ctx) resolveCases(fd *ast.FuncDecl) (cases map[string]*ast.CaseClause, 
 			if _, have := cases[k]; !have {
 				cc := &ast.CaseClause{Case: ifs.Pos(), Colon: ifs.Body.Lbrace, Body: ifs.Body.List}
 				cases[k] = cc
+				tableClauseMu.Lock()
 				tableClauseOf[cc] = tid
+				tableClauseMu.Unlock()
 			}
 		}
 		return true
@@ -229,6 +232,13 @@ func (c *Ctx) resolveCases(fd *ast.FuncDecl) (cases map[string]*ast.CaseClause, 
 
 // tableClauseOf: synthetic clauses made from a table lookup -> the table's identifier.
 var tableClauseOf = map[*ast.CaseClause]*ast.Ident{}
+var tableClauseMu sync.RWMutex
+
+func tableClause(cc *ast.CaseClause) *ast.Ident {
+	tableClauseMu.RLock()
+	defer tableClauseMu.RUnlock()
+	return tableClauseOf[cc]
+}
 
 // tableValueText: the source text of the value the table holds under key.
 func (c *Ctx) tableValueText(id *ast.Ident, key string) string {
@@ -454,7 +464,7 @@ func checkC17(c *Ctx, r *Report) {
 				if opc := rootOpConst[nm]; opc != "" && ok {
 					// the root operation type is looked up under the operation's own name
 					_, inBody := mentions(&ast.BlockStmt{List: cc.Body}, []string{opc})
-					if tid := tableClauseOf[cc]; tid != nil {
+					if tid := tableClause(cc); tid != nil {
 						inBody = c.tableValueText(tid, nm) == opc
 					} else if len(cc.List) > 1 {
 						inBody = false
@@ -1124,6 +1134,11 @@ func c17Total(c *Ctx, r *Report, resolveFns []*ssa.Function) {
 				}
 			}
 			if pi < 0 || seen[cal] {
+				continue
+			}
+			// the helper describes the member's value (interface{} in, interface{} out); a helper that searches a
+			// list the member holds (the directive uses for @deprecated) answers nil for "not there" by design
+			if !isEmptyIface(cal.Params[pi].Type()) {
 				continue
 			}
 			seen[cal] = true
